@@ -158,6 +158,18 @@ func (f *fileDecorator) fragment(node ast.Node) {
 						line = nextLine
 						i++
 
+						// Any further empty lines belong to the same gap (the formatter collapses
+						// them into one). Step over them, otherwise the last one would show up as
+						// an extra plain newline that replaces the empty line we just recorded.
+						for i < max-1 {
+							l := f.Fset.PositionFor(token.Pos(i+1), false).Line
+							if l == line {
+								break
+							}
+							line = l
+							i++
+						}
+
 					} else {
 						// add a new line fragment
 						f.addNewlineFragment(token.Pos(i-1), false)
